@@ -94,6 +94,10 @@ var targets = []target{
 	{Group: "Htlc", Mod: "htlc", Pkg: "keeper", Func: "Keeper.createHTLT", Lean: "createHTLT", Guards: true},
 	{Group: "Htlc", Mod: "htlc", Pkg: "keeper", Func: "Keeper.UpdateTimeBasedSupplyLimits", Lean: "UpdateWindow",
 		Locals: []string{"newTimeElapsed", "supply_TimeElapsed"}, Guards: true, Conds: true},
+	{Group: "Random", Mod: "random", Pkg: "types", Func: "PRNG.GetRand", Lean: "GetRand",
+		Locals: []string{"seedBT", "seedBH", "seedTI", "seedSum", "seedOS", "precision"}, Conds: true},
+	{Group: "TokenFee", Mod: "token", Pkg: "keeper", Func: "Keeper.MintToken", Lean: "MintToken",
+		Locals: []string{"precision", "mintableAmt"}, Guards: true},
 	{Group: "Service", Mod: "service", Pkg: "keeper", Func: "Keeper.AddEarnedFee", Lean: "AddEarnedFee",
 		Locals: []string{"taxAmount"}},
 	{Group: "Service", Mod: "service", Pkg: "keeper", Func: "Keeper.Slash", Lean: "Slash",
@@ -217,7 +221,8 @@ var methods = map[string]method{
 
 	// *big.Int: value of the result; the receiver is re-bound by the translator
 	"Big.Mul": {"Big_Mul", false, kBig}, "Big.Add": {"Big_Add", false, kBig}, "Big.Sub": {"Big_Sub", false, kBig},
-	"Big.Quo": {"Big_Quo", true, kBig}, "Big.Rem": {"Big_Rem", true, kBig}, "Big.Exp": {"Big_Exp", false, kBig},
+	"Big.Quo": {"Big_Quo", true, kBig}, "Big.Rem": {"Big_Rem", true, kBig},
+	"Big.Div": {"Big_Div", true, kBig}, "Big.Mod": {"Big_Mod", true, kBig}, "Big.Exp": {"Big_Exp", false, kBig},
 	"Big.Set": {"Big_Set", false, kBig}, "Big.Neg": {"Big_Neg", false, kBig},
 	"Big.Sign": {"Big_Sign", false, kI64}, "Big.Cmp": {"Big_Cmp", false, kI64},
 }
@@ -903,7 +908,7 @@ func translateLocals(p *packages.Package, fd *ast.FuncDecl, tg target) (defs []s
 		}
 		return true
 	})
-	if tg.Guards {
+	if tg.Guards || tg.Conds {
 		g := 0
 		var ifs []*ast.IfStmt
 		ast.Inspect(fd.Body, func(n ast.Node) bool {
